@@ -144,9 +144,16 @@ NextScript == /\ st = "idle" /\ st' = "done"
 SimLen == MaxCalls
 InitSim == SInit /\ hist = <<>>
 Finished(h) == Len(h) = SimLen => PrintT(ToJson([hist |-> [i \in DOMAIN h |-> Rec(h[i])]]))
+\* (the simulator draws the next step itself - RandomElement, seeded by -seed - instead of enumerating all |SCalls| successors;
+\* what a call returns is not needed here: the printed record carries the outcomes the law accepts)
+SimCall(c) == /\ t0' = c[1] /\ t1' = c[2] /\ bump' = c[3] /\ st' = "returned" /\ out' = <<"ok", <<>>>> /\ ncalls' = ncalls + 1
+              /\ UNCHANGED <<cur, reg, memo>>
 NextSim == /\ Len(hist) < SimLen
-           /\ \/ \E c \in SCalls, k \in 0..5 : Call(c) /\ hist' = Append(hist, <<"call", c, RealsFor(c, k)>>)
-              \/ \E e \in SEdits : EditCal(e) /\ hist' = Append(hist, <<"edit", e>>)
-              \/ \E h \in Mutations : Mutate(h) /\ hist' = Append(hist, <<"mutate", h>>)
+           /\ LET c == RandomElement(SCalls)  e == RandomElement(SEdits)  h == RandomElement(Mutations) IN
+              \/ SimCall(c) /\ hist' = Append(hist, <<"call", c, RealsFor(c, Len(hist))>>)
+              \/ SimCall(c) /\ hist' = Append(hist, <<"call", c, RealsFor(c, Len(hist) + 3)>>)
+              \/ EditCal(e) /\ hist' = Append(hist, <<"edit", e>>)
+              \/ st = "returned" /\ st' = "edited" /\ hist' = Append(hist, <<"mutate", h>>)
+                 /\ UNCHANGED <<t0, t1, bump, cur, out, reg, memo, ncalls>>
            /\ Finished(hist')
 =============================================================================
